@@ -28,6 +28,7 @@ class Recorder:
 
     def __init__(self, shape=None, rng=None, opaque=None, **fields):
         self.calls = []
+        self.results = []
         self._shape = shape
         self._rng = rng or random.Random(0)
         self._opaque = opaque or {}
@@ -36,6 +37,9 @@ class Recorder:
     def __getattr__(self, name):
         if name.startswith("__"):
             raise AttributeError(name)
+        return self._method(name)
+
+    def _method(self, name):
         spec = (self._shape.methods if self._shape is not None else {}).get(name, {})
 
         def run(*args, **kwargs):
@@ -49,15 +53,21 @@ class Recorder:
                     raise _exception_by_name(exc)
             rs = spec.get("returns")
             if rs is None:
-                return None
-            if isinstance(rs, str):
-                return eval(rs, dict(env))  # pylint: disable=eval-used
-            return to_native(rs, gen_json(rs, self._rng), self._opaque)
+                res = None
+            elif isinstance(rs, str):
+                res = eval(rs, dict(env))  # pylint: disable=eval-used
+            else:
+                res = to_native(rs, gen_json(rs, self._rng), self._opaque)
+            self.results.append(res)
+            return res
         if spec.get("is_async"):
             async def arun(*args, **kwargs):
                 return run(*args, **kwargs)
             return arun
         return run
+
+    def __call__(self, *args, **kwargs):
+        return self._method("__call__")(*args, **kwargs)
 
     def __aiter__(self):
         return self._items()
@@ -138,7 +148,15 @@ def to_native(shape, j, opaque=None):
             for f, v in kwargs.items():
                 object.__setattr__(obj, f, v)
             return obj
-        return cls(**kwargs)
+        try:
+            return cls(**kwargs)
+        except Exception:  # pylint: disable=broad-except
+            # constructor validation (e.g. __post_init__) rejected a combination the contract allows:
+            # populate the declared fields directly
+            obj = object.__new__(cls)
+            for f, v in kwargs.items():
+                object.__setattr__(obj, f, v)
+            return obj
     if k == "extobj":
         fields = j["fields"] if isinstance(j, dict) and "fields" in j else (j or {})
         seed = fields.get("__seed__", 0) if isinstance(fields, dict) else 0
@@ -166,7 +184,11 @@ def to_native(shape, j, opaque=None):
         items = j["list"] if isinstance(j, dict) else j
         vals = [to_native(shape.elem, x, opaque) for x in items]
         if shape.container == "deque":
-            return collections.deque(vals, maxlen=shape.maxlen)
+            ml = shape.maxlen
+            if hasattr(ml, "kind"):
+                ml = j.get("maxlen") if isinstance(j, dict) else None
+                ml = int(ml) if ml is not None else max(1, len(vals))
+            return collections.deque(vals, maxlen=ml)
         if shape.container == "tuple":
             return tuple(vals)
         return vals
@@ -260,7 +282,15 @@ def gen_json(shape, rng: random.Random, seeds=None, size=3):
                          if key in shape.always or rng.random() < 0.6]}
     if k in ("seq", "setseq", "keyset"):
         n = rng.randint(0, size)
-        return {"list": [gen_json(shape.elem, rng, seeds, size) for _ in range(n)]}
+        out = {"list": [gen_json(shape.elem, rng, seeds, size) for _ in range(n)]}
+        if k == "seq" and hasattr(getattr(shape, "maxlen", None), "kind"):
+            out["maxlen"] = n + rng.choice([0, 0, 1, 2])
+            if out["maxlen"] == 0:
+                out["maxlen"] = 1
+        if k == "seq" and getattr(shape, "sorted_by", None):
+            key = shape.sorted_by
+            out["list"].sort(key=lambda e: _sort_key(e, key))
+        return out
     if k == "enum":
         cls = load_class(shape.cls)
         members = shape.members or [m.name for m in cls]
@@ -293,3 +323,13 @@ def _key_json(key):
 
 def _key_matches(key, kj):
     return _key_json(key) == kj
+
+
+def _sort_key(e, key):
+    v = e["fields"][key] if isinstance(e, dict) and "fields" in e else e
+    if isinstance(v, dict):
+        for kk in ("time_us", "delta_us"):
+            if kk in v:
+                return v[kk]
+        return num(v)
+    return v
